@@ -145,15 +145,20 @@ bool ops_core(World &w, const Op &o) {
     if (R.adopted) { if (g) viol0(w, "C19", "shm.modify_not_refused", "alloc_group on an adopted topology returned %p errno %d", (void *)g, e); r.ev("group r%d adopted refused", ri); return true; }
     if (!g) viol0(w, own, "group.alloc_failed", "alloc_group_object returned NULL (errno %d)", e);
     int how = (int)(o.u("how") % 6); int nsrc = 1 + (int)(o.u("n") % 3);
-    BSet gc, gn;
+    BSet gc, gn; hwloc_obj_t copy_of = nullptr;
     if (how <= 2) {   // union of the sets of selected objects
-      for (int i = 0; i < nsrc; i++) { hwloc_obj_t src = sel_obj(R, o.u("o") + (uint64_t)i * o.u("stride", 1), 3); if (how == 0) hwloc_obj_add_other_obj_sets(g, src); else if (how == 1) { if (!g->cpuset) g->cpuset = hwloc_bitmap_alloc(); hwloc_bitmap_or(g->cpuset, g->cpuset, src->cpuset); } else { if (!g->nodeset) g->nodeset = hwloc_bitmap_alloc(); hwloc_bitmap_or(g->nodeset, g->nodeset, src->nodeset); } }
+      for (int i = 0; i < nsrc; i++) { hwloc_obj_t src = sel_obj(R, o.u("o") + (uint64_t)i * o.u("stride", 1), 3);
+        // C02 runs: a quarter of the single-source Groups copy the sets of an existing Group (if there is one): identical Groups meet the merge rules
+        // (preferably a mergeable one, whose kind the new Group then takes: the newcomer is not "more important", the existing Group must survive as it is)
+        if (w.cfg.is("C02") && nsrc == 1 && (o.u("o") & 3) == 0) { std::vector<hwloc_obj_t> mg; for (uint64_t gp : R.last.order) { const ObjRec &rec = R.last.objs.at(gp); if (rec.type == HWLOC_OBJ_GROUP && rec.ptr && !rec.ptr->attr->group.dont_merge) mg.push_back(rec.ptr); }
+          hwloc_obj_t gsrc = mg.empty() ? sel_type(R, o.u("o") >> 2, HWLOC_OBJ_GROUP) : mg[(o.u("o") >> 3) % mg.size()]; if (gsrc) { src = gsrc; if (!mg.empty() && ((o.u("o") >> 2) & 1)) copy_of = gsrc; } } if (how == 0) hwloc_obj_add_other_obj_sets(g, src); else if (how == 1) { if (!g->cpuset) g->cpuset = hwloc_bitmap_alloc(); hwloc_bitmap_or(g->cpuset, g->cpuset, src->cpuset); } else { if (!g->nodeset) g->nodeset = hwloc_bitmap_alloc(); hwloc_bitmap_or(g->nodeset, g->nodeset, src->nodeset); } }
     } else if (how == 3) { BSet s = sel_cpuset(R, (int)o.u("mode"), o.u("bits")); g->cpuset = s.to_hwloc(); }      // arbitrary, often conflicting
     else if (how == 4) { BSet s = sel_cpuset(R, (int)o.u("mode"), o.u("bits")); g->complete_cpuset = s.to_hwloc(); }
     else { /* no set at all */ }
     g->attr->group.dont_merge = (unsigned char)(o.u("dm") & 1);
     if (o.u("kind") & 1) g->attr->group.kind = 0xffffffffu;
     g->attr->group.subkind = (unsigned)(o.u("kind") >> 1) & 3;
+    if (copy_of) { g->attr->group.kind = copy_of->attr->group.kind; g->attr->group.dont_merge = 0; }
     if (o.u("free") % 5 == 0) { int rc = hwloc_topology_free_group_object(t, g); r.ev("group r%d freed -> %d", ri, rc); if (rc) viol0(w, own, "group.free_failed", "free_group_object returned %d", rc); return true; }
     gc = BSet::from(g->cpuset) | BSet::from(g->complete_cpuset); gn = BSet::from(g->nodeset) | BSet::from(g->complete_nodeset);
     bool dm = g->attr->group.dont_merge;
